@@ -272,9 +272,20 @@ pub fn op_cache_load(ctx: Ctx, k: u8) {
     let r = rec_begin();
     let mut got = guarded("Cache::load", || e.c.load_id());
     if got.is_none() && !rt::is_aborting() {
-        // the projection of a mapped cache panicked, possibly after the cache had already
-        // revalidated: ask again (nothing is armed any more) to learn what it holds now
-        got = guarded("Cache::load (after a panicking projection)", || e.c.load_id());
+        // User code panicked inside the load (the projection of a mapped cache, or the destructor
+        // of the value the cache let go), possibly after the cache had already revalidated: ask
+        // again, with projection panics disarmed, to learn what it holds now.
+        let me = rt::current();
+        w(|w| {
+            if let Some(k) = w.proj_panic.get_mut(me) {
+                *k = 0;
+            }
+        });
+        got = guarded("Cache::load (after a panic in user code)", || e.c.load_id());
+        if got.is_none() && !rt::is_aborting() {
+            // a second destructor panicked; once more, then the cache is given up
+            got = guarded("Cache::load (after a panic in user code)", || e.c.load_id());
+        }
     }
     w(|w| {
         let u = e.last_uid;
@@ -292,8 +303,11 @@ pub fn op_cache_load(ctx: Ctx, k: u8) {
         });
         e.last_uid = uid;
         e.last_addr = addr;
+        w(|w| w.caches[kslot(ctx, k)] = Some(e));
+    } else {
+        // what it holds is unknown to the harness: it is dropped here, inside this operation
+        let _ = guarded("drop(Cache)", move || drop(e));
     }
-    w(|w| w.caches[kslot(ctx, k)] = Some(e));
     rt::op_end();
 }
 
